@@ -227,7 +227,23 @@ class Net:
         mode = self.mode
         if mode == "refuse":
             self.ev("refused")
-            raise ConnectionRefusedError(111, "refused")
+            # a connection attempt fails in many ways, all of them OSError: refused, no route, the resolver does not know the name (yet) or
+            # asks to try again, a timeout, asyncio's summary of several addresses that failed. Which one is met rotates with the attempts
+            # (the harnesses set `kind_offset` from a hash of the script, so every kind meets every family of scripts)
+            import errno
+            import socket as _socket
+            k = (self.attempts - 1 + getattr(self, "kind_offset", 0)) % 6
+            if k == 0:
+                raise ConnectionRefusedError(errno.ECONNREFUSED, "refused")
+            if k == 1:
+                raise OSError(errno.EHOSTUNREACH, "No route to host")
+            if k == 2:
+                raise _socket.gaierror(_socket.EAI_NONAME, "Name or service not known")
+            if k == 3:
+                raise TimeoutError(errno.ETIMEDOUT, "Connection timed out")
+            if k == 4:
+                raise OSError("Multiple exceptions: [Errno 111] Connect call failed ('192.0.2.1', 9005), [Errno 113] Connect call failed ('192.0.2.2', 9005)")
+            raise _socket.gaierror(_socket.EAI_AGAIN, "Temporary failure in name resolution")
         proto = pf()
         t = FakeTransport(loop, proto, self, len(self.conns))
         self.conns.append(t)
